@@ -18,6 +18,21 @@ def Err.code : Err → Nat
   | .ok => 0 | .args => 1 | .open_ => 2 | .read => 3 | .write => 4 | .seek => 5 | .nomemory => 6
   | .signature => 7 | .dataformat => 8 | .checksum => 9 | .crunch => 10 | .decrunch => 11
 
+/-- model rendering of undefined behaviour and of non-termination (DESIGN.md §2.1) -/
+inductive Fault
+  | oob (what : String)
+  | uninit (what : String)
+  | nullDeref (what : String)
+  | divZero
+  | shiftWidth
+  | hang
+  deriving Repr, DecidableEq
+
+/-- where a decoder pulls its input from: `read s n` = `sys->read(input, buf, n)`;
+    `none` = the call returned a negative value -/
+structure Src (σ : Type) where
+  read : σ → Nat → Except Fault (Option Bytes × σ)
+
 /-- `EndGetI16` -/
 def le16 (a b : UInt8) : Nat := a.toNat + b.toNat * 256
 /-- `EndGetI32` -/
